@@ -42,6 +42,7 @@ deriving Repr, DecidableEq, Inhabited
 
 inductive Val
   | str  (v : Bytes)
+  | strNil                 -- a *str.String whose V is Go's nil slice (created, never filled): GET renders null
   | list (l : LList)
   | hash (m : AList Bytes)
   | set  (m : AList Unit)
@@ -50,7 +51,7 @@ deriving Repr, DecidableEq, Inhabited
 
 /-- `ds.ValueType` numbering: 1 string, 2 set, 3 list, 4 zset, 5 hash -/
 def Val.typeCode : Val → Nat
-  | .str _ => 1 | .set _ => 2 | .list _ => 3 | .zset _ => 4 | .hash _ => 5
+  | .str _ => 1 | .strNil => 1 | .set _ => 2 | .list _ => 3 | .zset _ => 4 | .hash _ => 5
 
 def typeName : Nat → String
   | 1 => "string" | 2 => "set" | 3 => "list" | 4 => "zset" | 5 => "hash" | _ => "none"
